@@ -119,6 +119,7 @@ class Loop:
 
     def __init__(self, order, outcomes):
         self.pending = []
+        self.resolved = []     # future resolved, on_done not delivered yet
         self.order = list(order)
         self.outcomes = outcomes
         self.k = 0
@@ -135,17 +136,26 @@ class Loop:
         return n - 1
 
     def complete_one(self):
-        if not self.pending:
+        """one step of the stub CRT event loop.  Like awscrt, a request's future is resolved FIRST and its on_done
+        is delivered in a LATER step: between the two the future is done but the callbacks have not run."""
+        n = len(self.resolved) + len(self.pending)
+        if n == 0:
             return False
-        r = self.pending.pop(self.choose(len(self.pending)))
+        i = self.choose(n)
+        if i < len(self.resolved):
+            r = self.resolved.pop(i)
+            r.kw['on_done'](error=r.err)
+            self.completed.append(r)
+            return True
+        r = self.pending.pop(i - len(self.resolved))
         err = None
         if r.cancelled:
             err = CancelledByUser()
         elif r.outcome == 1:
             err = ServiceError('boom')
+        r.err = err
         r.finished_future.finish(err)
-        r.kw['on_done'](error=err)
-        self.completed.append(r)
+        self.resolved.append(r)
         return True
 
 
@@ -313,8 +323,8 @@ def sequence(n, k0, o0, k1, o1, k2, o2, k3, o3, x0, x1, x2, cancel_i, rename_fai
             return 'crt: on_done subscriber not run exactly once'
         if subs[i].early:
             return 'crt: transfer reported as finished its callbacks before on_done subscribers ran'
-    if loop.pending:
-        return 'crt: shutdown returned with requests outstanding'
+    if loop.pending or loop.resolved:
+        return 'crt: shutdown returned with requests outstanding / done callbacks not delivered'
     if sem.acquires != n or sem.releases != n:
         return 'crt: not exactly one permit release per submitted transfer'
     if sem.value != sem.initial:
